@@ -1,0 +1,60 @@
+//go:build verif
+
+package tcpassembly
+
+import (
+	"sort"
+	"sync"
+)
+
+// Hooks for the verification harness (build tag verif only). All three are nil unless a controller
+// installs itself, in which case the tagged build behaves exactly like the untagged one.
+
+// VerifYieldHook is called at points where pool or connection locks have just been released.
+var VerifYieldHook func(site string)
+
+// VerifLockHook is called immediately before a connection mutex is acquired.
+var VerifLockHook func(mu *sync.Mutex)
+
+// VerifOrderHook receives the keys of the connections a flush is about to walk (sorted) and
+// returns the order (a permutation of indices) in which to walk them. Map iteration order is
+// unspecified, so every order is a legal behaviour of the untagged code.
+var VerifOrderHook func(keys []string) []int
+
+func verifYield(site string) {
+	if h := VerifYieldHook; h != nil {
+		h(site)
+	}
+}
+
+func verifBeforeLock(mu *sync.Mutex) {
+	if h := VerifLockHook; h != nil {
+		h(mu)
+	}
+}
+
+func verifOrderConns(conns []*connection) []*connection {
+	h := VerifOrderHook
+	if h == nil {
+		return conns
+	}
+	sort.Slice(conns, func(i, j int) bool { return conns[i].key.String() < conns[j].key.String() })
+	keys := make([]string, len(conns))
+	for i, c := range conns {
+		keys[i] = c.key.String()
+	}
+	perm := h(keys)
+	if len(perm) != len(conns) {
+		return conns
+	}
+	out := make([]*connection, 0, len(conns))
+	seen := make([]bool, len(conns))
+	for _, i := range perm {
+		if i < 0 || i >= len(conns) || seen[i] {
+			return conns
+		}
+		seen[i] = true
+		out = append(out, conns[i])
+	}
+	return out
+}
